@@ -107,7 +107,7 @@ def grid_interpolation(res, rng, c, f):
     pts = list(itertools.product(*axes))
     exp = np.array([f.eval(p) for p in pts])
     nsch = sum(abs(g.coefficient) for g in c.scheme)
-    scale = max(1.0, float(np.max(np.abs(exp)))) * nsch
+    scale = max(getattr(f, "magnitude", 1.0), float(np.max(np.abs(exp)))) * nsch
     res.close("nodal_reproduction_grid", vals, exp, 1e-11 * scale, "dimwise_interpolate_grid_not_nodal",
               "interpolate_grid on the 1-D point lists of a component grid differs from the function at these points of the combined grid",
               {"axes": [ax[:20] for ax in axes]})
@@ -121,6 +121,12 @@ def run_case(case, res):
         # an integer-valued function (labels / counts): eval() returns an integer-typed array
         f = hooks.VFunction([hooks.comp_int_hash(case["seed"]), hooks.comp_int_hash(case["seed"] + 1)], integer_valued=True)
         res.count("integer_valued_function")
+    elif rng.random() < 0.1:
+        # the same kind of function at a magnitude of 1e-9 / 1e-12 (interpolation is linear; nothing may be rounded to zero)
+        fs = rng.choice([1e-9, 1e-12])
+        f = hooks.VFunction([(lambda q, g=hooks.comp_hash(case["seed"]): fs * g(q)), (lambda q, g=hooks.comp_smooth(case["seed"], d): fs * g(q))])
+        f.magnitude = fs
+        res.count("function_magnitude_tiny")
     else:
         f = hooks.VFunction([hooks.comp_hash(case["seed"]), hooks.comp_smooth(case["seed"], d)])
     err = hooks.RandErr(cfg["errseed"], cfg["profile"], d, cfg["a"], cfg["b"], scale=cfg.get("errscale", 1.0))
